@@ -51,7 +51,8 @@ META = {
     "assumptions": ["gfortran 12 -O0 IEEE semantics; values compared with relative tolerance 1e-12",
                     "guards only compare exactly computed scalars (cannot flip between back ends)",
                     "programs on which kind inference cannot succeed are outside the subset (discarded, counted)"],
-    "probes": ["step_failed", "step_switched", "step_raised", "else_taken", "compiled", "ret_compared"],
+    "probes": ["step_failed", "step_switched", "step_raised", "compiled", "ret_compared", "structure_user_type",
+               "two_user_types"],
  },
  "C12": {
     "level": "exploration",
@@ -73,7 +74,8 @@ META = {
                     "after shutdown is caught only by shutdown's own report",
                     "scripts in which a Raise stops the program are excluded (the property is about runs "
                     "followed by shutdown)"],
-    "probes": ["step_failed", "step_switched", "ut_temp_live_across_exit", "ut_move", "compiled", "shutdown_ok"],
+    "probes": ["step_failed", "step_switched", "ut_temp_live_across_exit", "ut_move", "compiled", "shutdown_ok",
+               "structure_user_type", "two_user_types"],
  },
 }
 
